@@ -16,6 +16,13 @@ from . import num
 from .num import XR, fin, pinf, ninf, xval, is_fin, I, R, B
 
 
+# Membership `x in L` is defined through the ghost inverse index idx[L][x] (0 <= idx < len and L[idx] is x).
+# The index is maintained exactly by append / extend / literals / copies and framed for untouched lists, so membership
+# facts are always derived from earlier membership facts.  The Skolem axiom "every stored element is found by idx"
+# (true of every list) is NOT assumed by default: it has a self-feeding trigger (it creates the term L[idx[L][x]]).
+IDX_SKOLEM = False
+
+
 class Unsupported(Exception):
     pass
 
@@ -253,7 +260,8 @@ class Unit:
         if reflike(elem_ty):
             idxA = z3.Const("H0_idx:" + lt, self.key_sort("idx:"))
             self.base["idx:" + lt] = idxA
-            self.bg.append(self.idx_axiom(lenA, eltA, idxA))
+            if IDX_SKOLEM:
+                self.bg.append(self.idx_axiom(lenA, eltA, idxA))
             if not elem_ty.opt:
                 self.bg.append(self.nonnull_axiom(lenA, eltA, self.next0))
 
@@ -268,7 +276,9 @@ class Unit:
             s.add(name)
 
     def alloc(self, st):
-        o = st.next
+        # a named constant per allocated object keeps quantifier triggers free of arithmetic
+        o = fresh("obj", I)
+        st.pc.append(o == st.next)
         st.next = o + 1
         for s in self.wlog:
             s.add("next")
@@ -303,7 +313,8 @@ class Unit:
         for k, (old, A, ty) in new.items():
             if k.startswith("idx:"):
                 lt = k[4:]
-                st.pc.append(self.idx_axiom(self.get_arr(st, "len:" + lt), self.get_arr(st, "elt:" + lt), A))
+                if IDX_SKOLEM:
+                    st.pc.append(self.idx_axiom(self.get_arr(st, "len:" + lt), self.get_arr(st, "elt:" + lt), A))
                 if not ty.opt:
                     st.pc.append(self.nonnull_axiom(self.get_arr(st, "len:" + lt), self.get_arr(st, "elt:" + lt), st.next))
         if targets is not None:
